@@ -51,6 +51,7 @@ func errText(err error) string {
 }
 
 func checkSyncRef(c callCase, withRef bool) string {
+	judged = false
 	s := specByID[c.Spec]
 	if s == nil {
 		return "unknown spec " + c.Spec
@@ -86,6 +87,7 @@ func checkSyncRef(c callCase, withRef bool) string {
 		return fmt.Sprintf("%s: shipped definition gives %s err=%s, the text of builtin.jq gives %s err=%s", call,
 			univ.ShowAll(ra.Vals), errText(ra.Err), univ.ShowAll(rb.Vals), errText(rb.Err))
 	}
+	judged = true
 	if ra.Err == nil && len(ra.Vals) > 0 {
 		rec.Class("sync/values")
 	} else if ra.Err != nil {
@@ -240,9 +242,9 @@ func runSync(t *testing.T) {
 		count := 0
 		switch {
 		case s.Arity == 2:
-			count = rec.Scale(6000, 0)
+			count = rec.Scale(12000, 0)
 		case s.Arity > 2:
-			count = rec.Scale(4000, 150000)
+			count = rec.Scale(6000, 150000)
 		}
 		tuples(s, si, count, rec.Seed+77, func(in any, args []arg) {
 			n++
@@ -256,7 +258,6 @@ func runSync(t *testing.T) {
 			for _, a := range args {
 				kinds = append(kinds, argKind(a))
 			}
-			rec.NT("sync|" + s.ID + "|" + strings.Join(kinds, ","))
 			if n%7919 == 0 {
 				rec.Sample(map[string]any{"sub": "sync", "query": s.query(args), "in": univ.Show(in), "args": argKeys(args)})
 			}
@@ -267,13 +268,16 @@ func runSync(t *testing.T) {
 					rec.Direct("sync", c, "%s", msg)
 				}
 			}
+			if judged {
+				rec.NT("sync|" + s.ID + "|" + strings.Join(kinds, ","))
+			}
 		})
 	}
 	rec.Exhaustive("sync: all tuples of the universe (and the filter pool) for every arity-0/1 definition of builtin.jq"+map[bool]string{true: " and every arity-2 definition", false: ""}[rec.Thorough()], complete)
 	rec.Extra("jq_defined_callables", len(live))
 
 	valGen := gen.Value(gen.Opt{Reps: true, Special: true, BadUTF8: true, MaxDepth: 3, MaxWidth: 3, SmallInts: true})
-	rec.Rapid(t, "sync-random", rec.Scale(40000, 1000000), func(t *rapid.T) {
+	rec.Rapid(t, "sync-random", rec.Scale(80000, 600000), func(t *rapid.T) {
 		s := live[rapid.IntRange(0, len(live)-1).Draw(t, "spec")]
 		in := valGen.Draw(t, "in")
 		args := make([]arg, s.Arity)
@@ -282,10 +286,12 @@ func runSync(t *testing.T) {
 		}
 		c := callCase{Spec: s.ID, In: univ.V{X: in}, Args: args}
 		rec.Eval()
-		rec.NT("syncr|" + s.ID + "|" + univ.Show(in) + "|" + strings.Join(argKeys(args), "|"))
 		withRef := rapid.IntRange(0, 3).Draw(t, "ref") == 0
 		if msg := checkSyncRef(c, withRef); msg != "" {
 			t.Fatalf("%s", rec.Fail("sync-random", c, "%s", msg))
+		}
+		if judged {
+			rec.NT("syncr|" + s.ID + "|" + univ.Show(in) + "|" + strings.Join(argKeys(args), "|"))
 		}
 	})
 }
